@@ -276,6 +276,18 @@ def run(P, rep, tier):
     ctor_rule(P, rep, r2)
     rep.floor(r2, 8)
 
+    # ---- R4: acceptance depends on the line only -----------------------------------------
+    r4 = rep.rule('C11-R4', 'header parsing keeps no state in module/class-level containers (what is accepted depends on the line, '
+                  'not on earlier parses)', reference=1)
+    from sa.props.c10 import _shared_mutations
+    muts = _shared_mutations(paths)
+    if muts:
+        for nm, loc_, fn_, txt in muts[:3]:
+            rep.violation(r4, 'shared-state:%s' % txt, loc_, 'the header parser writes to the shared %s (%s in %s): a line rejected or '
+                          'accepted once changes how the same text is treated later, in this and every other reader' % (nm, txt, fn_), path=[fn_])
+    else:
+        rep.ok(r4, R.header_fn.short, {'paths': len(paths)})
+
     # ---- R3: verbatim storage / integer conversion ---------------------------
     r3 = rep.rule('C11-R3', 'option values are stored verbatim; integer conversion covers -?[0-9]+', reference=2)
     conv = integer_conversion(paths, with_pairs)
